@@ -28,3 +28,13 @@ package graph
 //@   ensures result != nil
 //@   ensures vset(ctx) == 0 ==> vset(result) == 0 && forkctr == old(forkctr)
 //@   ensures vset(ctx) != 0 ==> vset(result) != 0 && vset(result) != vset(ctx) && forkctr == old(forkctr) + 1 && forkid(result) == forkctr
+
+// The visited set itself: a subject set counts as visited exactly when the string of its
+// unique id is in the map - the whole identity (namespace, object, relation), nothing coarser.
+//@ func (*stringSet).addNoDuplicate
+//@   props C01
+//@   requires s != nil && s.m != nil && el != nil
+//@   modifies mapstate(s.m)
+//@   ensures[C01] seen-means-this-very-id-was-added-before: result == old(has(s.m, strof(el)))
+//@   ensures[C01] now-remembered: has(s.m, strof(el))
+//@   ensures[C01] nothing-else-is-marked: forall k string :: k != strof(el) ==> has(s.m, k) == old(has(s.m, k))
